@@ -120,7 +120,18 @@ def run(R, tier):
         seen = {}
         bad_match = []
         bad_num = []
-        for text in sorted(lits | derived) + [b"XYZ", b"Q"]:
+        # candidates that are NOT suffixes of the quantity: every proper prefix of a defined suffix and every defined
+        # suffix with a letter appended (a matcher that treats part of the pattern as optional, or that compares prefixes,
+        # accepts them - seed C18-J), next to the two unrelated texts
+        known_ = {x.upper() for x in (lits | derived)}
+        near = set()
+        for t_ in sorted(lits | derived):
+            for k_ in range(1, len(t_)):
+                near.add(t_[:k_])
+            near.add(t_ + b"X")
+            near.add(t_ + b"Z")
+        near = sorted(x for x in near if x.upper() not in known_ and len(x) <= 12)
+        for text in sorted(lits | derived) + [b"XYZ", b"Q"] + near:
             for variant in (text, text.lower(), text[:1] + text[1:].lower()):
                 tok = M.token(feng, "DecimalNumericSuffixProgramData", [RefV(Cell(fdai.BytesV(b"1.5"), "num")), RefV(Cell(fdai.BytesV(variant), "suffix"))])
                 try:
@@ -208,7 +219,21 @@ def run(R, tier):
             n_db += 1
             R.check(oq.get(suf) == unit and num_ok and one, "R18.5", "%s:%s" % (q, suf), "-> Logarithmic(number unchanged, reference 1 %s)" % unit, "decibel suffix %s of %s: reference unit %s (expected %s), number passed through unchanged: %s" % (suf, q, unit, oq.get(suf), num_ok), where=b.span)
         R.check(set(seen) == set(oq) and delegates and not not_whole, "R18.5", "%s:db-table" % q, "dB suffixes %s; anything else goes to the linear conversion" % sorted(seen), "decibel table of %s is %s, expected %s (other suffixes must be delegated to the linear conversion)" % (q, sorted(seen), sorted(oq)), where=b.span)
+    # a decibel parameter is a number with or without suffix: every other element type is refused here, not handed on to the
+    # number type's conversion (which accepts MAXimum / MINimum / INFinity ... as character data - seed C18-K)
+    for q, b in sorted(dbs.items()):
+        for name in M.DATA:
+            if name in ("DecimalNumericProgramData", "DecimalNumericSuffixProgramData"):
+                continue
+            res = eng.run(b, [M.token(eng, name)])
+            oc = {M.outcome(r) for r in res}
+            handed_on = any(e.kind == "call" and e.name.endswith(("TryFrom::try_from", "TryInto::try_into")) for r in res for e in r.trace)
+            R.check(oc == {"Err(DataTypeError)"} and not handed_on, "R18.5", "Db<%s><-%s" % (q, name), "-104, decided by the decibel conversion itself", "non-numeric element %s converted to a decibel/linear %s yields %s%s instead of a data type error" % (name, q, sorted(oc), " (handed on to another conversion)" if handed_on else ""), where=b.span)
     R.floor("R18.5", "decibel entries", n_db, 10)
+
+    # ---- R18.8 the number / suffix split is the lexer's: its whole-element table of decimal data (shared with C04 / C08) -------------
+    from . import lexer as LX
+    LX.check_elements(R, "R18.8", ("decimal",), tier == "thorough")
 
     # ---- R18.4 amplitude ---------------------------------------------------------------------------------------
     bs = [b for ty, b in CV.conversions(u) if "Amplitude<" in ty]
